@@ -1,6 +1,7 @@
 """Baton scheduler for the threaded code (DESIGN.md 2.2): real OS threads, exactly one of which
 runs at any time; blocking points are virtual; time is virtual."""
 import collections
+import sys
 import threading
 
 threading.stack_size(512 * 1024)
@@ -40,6 +41,35 @@ class Sched:
         self.main_sem = threading.Semaphore(0)
         self.switches = 0
         self.by_ident = {}
+        # preemptive mode (DESIGN.md 2.2): scheduled threads are traced; the n-th line executed
+        # inside the library since arm() was called is a switching point if n is in `points`
+        self.trace_on = False
+        self.trace_match = '/engineio/'
+        self.points = []
+        self.lines = 0
+        self.preemptions = 0
+
+    def arm(self, points):
+        self.points = sorted(int(p) for p in (points or []))
+        self.lines = 0
+
+    def _tracer(self, frame, event, arg):
+        if event == 'call' and self.trace_match in frame.f_code.co_filename:
+            return self._local
+        return None
+
+    def _local(self, frame, event, arg):
+        if event == 'line' and self.points:
+            self.lines += 1
+            if self.lines >= self.points[0]:
+                self.points.pop(0)
+                t = self.by_ident.get(threading.get_ident())
+                if t is not None and t is self.current and not t.kill:
+                    self.preemptions += 1
+                    t.state = 'runnable'
+                    t.preempted = True
+                    self._switch_out(t)
+        return self._local
 
     # -- called from the scheduler (harness) thread ----------------------------------------
     def spawn(self, fn, name='t'):
@@ -50,6 +80,8 @@ class Sched:
     def _bootstrap(self, t):
         t.sem.acquire()
         self.by_ident[threading.get_ident()] = t
+        if self.trace_on:
+            sys.settrace(self._tracer)
         try:
             if not t.kill:
                 t.fn()
@@ -94,6 +126,10 @@ class Sched:
                 break
             i = pick(r) if (pick is not None and len(r) > 1) else 0
             t = r[i]
+            if getattr(t, 'preempted', False) and len(r) > 1:
+                # a thread that was just switched out at a line lets another one run first
+                t.preempted = False
+                t = [x for x in r if x is not t][0]
             if t.state == 'blocked':
                 t.woke_by_pred = True
             self._run(t)
